@@ -10,6 +10,9 @@
 (*                                     AddRcpt, before the body call       *)
 (*          Lookup(mx, cross)          harness, where the outstanding TLSA *)
 (*                                     answer of an earlier MX was stored  *)
+(*          StsLookup(cross)           harness, where the outstanding      *)
+(*                                     MTA-STS answer of an earlier        *)
+(*                                     recipient domain was stored         *)
 (*          SrvConn(mx, tls, cert)     scripted server, TLS state settled *)
 (*          SrvData(mx, tls, cert)     scripted server, content received  *)
 (*          Ret(op, res)               driver, AddRcpt / Body returned    *)
@@ -50,8 +53,9 @@ MXOf(r) == [stls |-> r.stls, cert |-> r.cert, stsMatch |-> r.stsMatch, tlsa |-> 
 
 TReset ==
   /\ IsEv("Cfg")
-  /\ cfg' = MkCfg(ToSet(Ev.pols), Ev.minTLS, Ev.minMX, Ev.override, Ev.sts, Ev.adMX, Ev.dns,
-                  [i \in 1..Len(Ev.mx) |-> MXOf(Ev.mx[i])])
+  /\ cfg' = MkCfgR(ToSet(Ev.pols), Ev.minTLS, Ev.minMX, Ev.override, Ev.sts, Ev.adMX, Ev.dns,
+                   [i \in 1..Len(Ev.mx) |-> MXOf(Ev.mx[i])],
+                   [i \in 1..Len(Ev.res) |-> [loop |-> Ev.res[i].loop, fail |-> ToSet(Ev.res[i].fail)]])
   /\ k' = 0 /\ cur' = NoMsg /\ pc' = "idle" /\ mxi' = 0 /\ att' = "first" /\ lvl' = 0
   /\ conn' = NoConn /\ pool' = <<>> /\ lastErr' = "none" /\ devs' = {}
   /\ pend' = "no" /\ tl' = "insecure"
@@ -60,10 +64,11 @@ TReset ==
   /\ l' = l + 1 /\ drift' = FALSE /\ driftAt' = 0 /\ tno' = Ev.t /\ kviol' = {}
 
 MsgOf(e) == [reqtls |-> e.reqtls, tlsno |-> e.tlsno, quar |-> e.quar,
-             mailfail |-> e.mailfail, qlate |-> e.qlate, na |-> e.na, pre |-> e.pre]
+             mailfail |-> e.mailfail, qlate |-> e.qlate, na |-> e.na, pre |-> e.pre, late |-> e.late]
 
 C_Msg  == IsEv("Msg") /\ StartMsg(MsgOf(Ev))
 C_Look == IsEv("Lookup") /\ Lookup(Ev.mx, Ev.cross)
+C_StsL == IsEv("StsLookup") /\ StsLookup(Ev.cross)
 C_Conn == IsEv("SrvConn") /\ Connect(Ev.mx, Ev.tls)
 C_Data == IsEv("SrvData") /\ Data(Ev.mx, Ev.tls) /\ (Ev.tls = "none" \/ Ev.cert = cfg.mx[Ev.mx].cert)
 C_Ret  == IsEv("Ret") /\
@@ -72,7 +77,7 @@ C_Ret  == IsEv("Ret") /\
 C_Quar == IsEv("Quar") /\ RaiseQuar
 C_End  == IsEv("End") /\ Finish
 
-Consume == C_Msg \/ C_Quar \/ C_Look \/ C_Conn \/ C_Data \/ C_Ret \/ C_End
+Consume == C_Msg \/ C_Quar \/ C_Look \/ C_StsL \/ C_Conn \/ C_Data \/ C_Ret \/ C_End
 Conform == Consume \/ Silent
 
 C_Step ==
